@@ -981,7 +981,8 @@ Qed.
 (* ------------------------------------------------------------------------------------------ *)
 (** * the model's constants are the ones in the source *)
 Lemma source_facts :
-  timeout_re_src = s2z "^([0-9]{1,8})([HMSmun])\Z" /\
+  timeout_re_sem = ([([48; 49; 50; 51; 52; 53; 54; 55; 56; 57], 1, 8);
+                      ([72; 77; 83; 109; 110; 117], 1, 1)], 0, [(0, 1); (1, 2)])%Z /\
   unit_chars = s2z "HMSmun" /\
   units = [(72, UInt 3600); (77, UInt 60); (83, UInt 1);
            (109, UPow10Neg 3); (117, UPow10Neg 6); (110, UPow10Neg 9)]%Z /\
